@@ -678,7 +678,7 @@ def unit_iter_tokens(sess, ctx, active):
         p, n, f, g, k0 = gh["p"], gh["n"], gh["f"], gh["g"], gh["k0"]
         o = post_fields(eng, self_val)
         eng.prove("call:_post_process:pre:at-end-of-stream", And(gh["eos_seen"] is True, I(o.cf) == n),
-                  props=("C01", "C08"))
+                  props=("C01", "C04", "C08", "C14"))
         eng.prove("call:_post_process:pre:state-untouched",
                   And(I(o.state) == f.state, I(o.sl) == f.sl, I(o.sf) == f.sf, B(o.ct) == f.ct,
                       I(o.data.n) == data_len(f, n)), props=("C01",))
